@@ -12,7 +12,7 @@ namespace Pelite.Pe
 -- src: pe64/base_relocs.rs:try_from — the directory bytes as a window of the image
 def View.baseRelocsRef (v : View) : Out Ref :=
   match v.dataDir 5 with
-  | none => .err .bounds
+  | none => .err .null
   | some (va, size) =>
     match v.slice va size 4 with
     | .ok r => .ok ⟨r.off, size, 4⟩            -- `relocs.get_unchecked(..Size)`; `slice` guaranteed `Size ≤ len`
